@@ -10,7 +10,8 @@
       "err" : the call cannot be answered without touching memory outside an object (index out of
               range, wrong object type, wrong arity): it must end in a Scheme error and change nothing
       "any" : R7RS says "it is an error" but no memory is at stake: value or error, state unchanged.
-   Huge(i): sentinels |i| >= 10^9 stand for fixnum extremes / bignums (driver substitutes them). *)
+   Huge(i): sentinels |i| >= 10^9 stand for fixnum extremes / bignums / the band 2^60..2^61 in which a length
+   times the element size wraps around in 64-bit arithmetic (driver substitutes them). *)
 EXTENDS Integers, Sequences, FiniteSets, TLC, SequencesExt, Json
 VARIABLES sst, last     \* abstract session state, label of the last call
 
@@ -124,7 +125,9 @@ AllCalls ==
   \cup {<<"fill", o, w, x, s, e>> : o \in {"V", "S"}, w \in {"vector", "string"}, x \in {65, 256}, s \in {-1, 0, 1, 3, 4, 1000000001}, e \in {-1, 0, 2, 3, 4, 1000000002}}
   \cup {<<"copy!", o, w, at, s, e>> : o \in {"V", "S", "B"}, w \in {"vector", "string", "bytevector"}, at \in {-1, 0, 1, 2, 3, 4}, s \in {-1, 0, 1, 2, 3, 4}, e \in {0, 1, 2, 3, 4, 1000000001}}
   \cup {<<"tail", o, i>> : o \in {"L", "V", "N"}, i \in Idx}
-  \cup {<<"make", k, i>> : k \in {"vector", "string", "bytevector"}, i \in {-1, 0, 1, 5, 1000000001, 1000000002, -1000000002}}
+  \cup {<<"make", k, i>> : k \in {"vector", "string", "bytevector", "wstring"},      \* wstring: make-string with a 4-byte fill character
+                            i \in {-1, 0, 1, 5, 1000000001, 1000000002, -1000000002,
+                                   1000000003, 1000000004, 1000000005}}   \* 2^60, 2^61-1, 2^61: length x element size wraps in 64 bits
   \cup {<<"int->char", "N", x>> : x \in {0, 65, 55295, 55296, 57343, 57344, 1114111, 1114112, -1, 1000000002}}
   \cup {<<"cur", o, w, off>> : o \in {"S", "V", "N"}, w \in {"next", "prev", "ref"}, off \in {-1, 0, 1, 2, 3, 4, 5, 6, 100}}
   \cup {<<"types", "N", k>> : k \in {1, 2, 7, 19, 40, 45, 90}}
